@@ -1173,6 +1173,7 @@ func (st *State) invokeVal(g *G, fr *Frame, res *ssa.Call, fnv Val, args []Val, 
 		return st.finishCall(g, fr, res, ret, isDefer)
 	}
 	if len(g.Stack) >= st.eng.Cfg.MaxDepth {
+		st.recordViolation("unwind", "call-depth", fmt.Sprintf("call depth %d exceeded at %s (unbounded recursion?)", st.eng.Cfg.MaxDepth, fn), instrPos2(res, fr), false)
 		st.eng.Res.Incomplete = append(st.eng.Res.Incomplete, fmt.Sprintf("unwinding assertion: call depth %d exceeded at %s", st.eng.Cfg.MaxDepth, fn))
 		st.fail("unwind", "call depth at "+fn.String())
 	}
